@@ -22,7 +22,7 @@ import (
 )
 
 var specC07 = report.Spec{Property: "C07", Check: "C07",
-	Rule: "determinism: arbitrary polygons (as C05), valid polygons with 0-3 holes (as C01) and, 1 case in 150 (thorough: 60), a valid star shaped polygon of 520-2600 (thorough: 6000) vertices several hundred pixels wide x grids x 1-4 ids given in random order x flags. Oracle (metamorphic): (a) three in-process repetitions (GOMAXPROCS as started, 1 and 8) return deeply equal maps, what a call returned does not change while another (shifted) polygon is snapped afterwards, and a digest of the output of up to 3000 multi-level/multi-ring cases per run is recomputed by a second process (Go randomises map iteration per range statement and per process) and must be equal; " +
+	Rule: "determinism: arbitrary polygons (as C05), valid polygons with 0-3 holes (as C01) and, 1 case in 150 (thorough: 400), a valid star shaped polygon of 520-2600 (thorough: 4000) vertices several hundred pixels wide x grids x 1-4 ids given in random order x flags. Oracle (metamorphic): (a) three in-process repetitions (GOMAXPROCS as started, 1 and 8) return deeply equal maps, what a call returned does not change while another (shifted) polygon is snapped afterwards, and a digest of the output of up to 3000 multi-level/multi-ring cases per run is recomputed by a second process (Go randomises map iteration per range statement and per process) and must be equal; " +
 		"(b) valid polygons: for every non-empty subset of rings given in the opposite direction the output is deeply equal (rings without orientation - one or two vertices or exactly zero area - may come back in either direction); (c) valid polygons: toggling ReverseWindingOrder yields the same tile matrices, polygons and rings in the same positions, each ring with >= 3 vertices being the reverse (as a cyclic sequence) of its counterpart, 1-2 vertex rings equal as sets. " +
 		"Non-trivial: >= 2 ids, or >= 2 rings, or the result has more polygons/rings than the input (a split). Distinct by case content.",
 	Assumptions: []string{"the second process is the same test binary started by the check itself with the recorded cases"}}
@@ -39,7 +39,7 @@ func bigStarCase(t *rapid.T) SnapCase {
 	c.IDs = gen.IDs(t, g, 3, min(maxAddressableID(g), 16))
 	c.Flags = gen.DrawFlags(t)
 	c.Flags.Ignore = false
-	ring, _ := gen.BigStar(t, rapid.IntRange(520, report.Scale(2600, 6000)).Draw(t, "bigN"))
+	ring, _ := gen.BigStar(t, rapid.IntRange(520, report.Scale(2600, 4000)).Draw(t, "bigN"))
 	if poly, anchor, ok := placeShape(t, g, c.IDs, [][]P{ring}, 4); ok {
 		c.Poly, c.Anchor = poly, anchor
 	}
@@ -47,7 +47,7 @@ func bigStarCase(t *rapid.T) SnapCase {
 }
 
 func genC07(t *rapid.T) C07Case {
-	if rapid.IntRange(0, report.Scale(150, 60)).Draw(t, "big") == 37 { // (rapid favours small values: pick one from the middle)
+	if rapid.IntRange(0, report.Scale(150, 400)).Draw(t, "big") == 37 { // (rapid favours small values: pick one from the middle)
 		return C07Case{SnapCase: bigStarCase(t), Valid: true}
 	}
 	if rapid.Bool().Draw(t, "validPolygon") {
